@@ -525,6 +525,27 @@ def run(rep):
             continue
         if want != got_:
             okcl, detcl = False, f"slice rows {want[0]}..{want[1]}, columns {want[2]}..{want[3]}; recorded {[str(x) for x in got_]}"
+    # georeferencing of the clipped grid: its lower-left corner is the corner of the parent's cell found by coord2cell (centre from
+    # cell2coord minus half a cell); recomputing it with Python's float floor division does not agree with the kernel's
+    # floor((x - xll)/csz) on cell boundaries of non-dyadic cell sizes
+    for p_ in cpaths:
+        pool_ = [v for v in p_.env.values() if isinstance(v, tuple)] + [e.val for e in p_.effects if e.val is not None] + ([p_.value] if isinstance(p_.value, tuple) else [])
+        for g_ in pq.find(('tuple', tuple(pool_)), lambda y: pq.call_named(y, "f:Grid")):
+            for kw_ in ("xllcorner", "yllcorner"):
+                v_ = pq.kw_of(g_, kw_)
+                if v_ is None:
+                    continue
+                from_cell = bool(pq.find(v_, lambda y: pq.call_named(y, ".cell2coord")))
+                floored = bool(pq.find(v_, lambda y: pq.call_named(y, "floordiv") or pq.call_named(y, "mod") or pq.call_named(y, "floor") or pq.call_named(y, "py.round") or pq.call_named(y, "round")))
+                if floored and not from_cell:
+                    rep.violation("R13.c", rel, "Grid.clip", f"`{kw_}` of the clipped grid = corner of the parent's cell returned by coord2cell (cell2coord - cellsize/2)",
+                                  f"recomputed as {_show(v_)[:110]}: float floor division / rounding disagrees with the kernel on cell boundaries", line=cp.lineno)
+                elif from_cell:
+                    rep.proved("R13.c", rel, "Grid.clip", f"`{kw_}` of the clipped grid = corner of the parent's cell returned by coord2cell (cell2coord - cellsize/2)", line=cp.lineno)
+                else:
+                    rep.undecided("R13.c", rel, "Grid.clip", f"`{kw_}` of the clipped grid = corner of the parent's cell returned by coord2cell (cell2coord - cellsize/2)",
+                                  _show(v_)[:110], line=cp.lineno)
+        break
     if undcl and okcl:
         rep.undecided("R13.c", rel, "Grid.clip", "parent bookkeeping records the row/column bounds of the slice", undcl, line=cp.lineno)
     else:
